@@ -67,9 +67,9 @@ def check(run, prog):
             pass
         return pt
 
-    for has_t in (True, False):
-        z = make_signal(prog, "BasebandSignal", nchan=2, start_time=has_t)
-        tag = "" if has_t else " (no start_time)"
+    for has_t, clsname, dtype in ((True, "BasebandSignal", "complex128"), (False, "BasebandSignal", "complex128"), (True, "Signal", "float64")):
+        z = make_signal(prog, clsname, nchan=2, start_time=has_t, dtype=dtype)
+        tag = ("" if has_t else " (no start_time)") + ("" if dtype.startswith("complex") else " [real data]")
         # ----------------------------------------------------------- whole-sample t
         ev = ck.evaluator(oracle=oracle(False))
         out = ck.attempt("R2", f_snip.where, "snippet(z, ti, n), ti integer" + tag, "evaluates", lambda: ev.call(f_snip, [z, Num(ti), Num(n)], {}),
@@ -107,12 +107,14 @@ def check(run, prog):
                 kb = sp.Symbol("kbin", integer=True)
                 i = sp.floor(t)
                 exp_shifted = F["IFFT"](F["FFT"](z.attrs["_data"].expr, 0) * sp.exp(-2 * sp.pi * sp.I * (i - t) * kb / N), 0)
+                if not dtype.startswith("complex"):
+                    exp_shifted = sp.re(exp_shifted)
                 ck.eq("R2", f_snip.where, "fractional t: interpolated data" + tag,
                       "== ifft(fft(x) * exp(-2*pi*i*(i - t)*k/N)): the DFT delay by i - t, i = floor(t)", inner[0], exp_shifted, constraints=region)
                 ck.eq("R2", f_snip.where, "fractional t: final slice" + tag, "z'[i : i+n] on the shifted signal", ds[1] + 1000 * ds[2], i + 1000 * (i + n),
                       constraints=region)
         # ----------------------------------------------------------- the three forms denote the same instant
-        if has_t and outf is not None:
+        if has_t and outf is not None and dtype.startswith("complex"):
             evq = ck.evaluator(oracle=oracle(True))
             outq = ck.attempt("R1", f_snip.where, "snippet(z, tau [s], n)", "evaluates", lambda: evq.call(f_snip, [z, Num(tau / Hz, kind="quantity"), Num(n)], {}),
                               ev=evq, allowed_guards=["ValueError"])
